@@ -493,6 +493,39 @@ fn judge(
                                         .any(|c| format!("-{}", c) == typed_name))
                         })
                     });
+                // ... or of an argument that is a member of an adjacent group?
+                fn adjacent_first_args(s: &Spec, out: &mut Vec<Names>) {
+                    fn first_item(s: &Spec) -> Option<&Item> {
+                        match s {
+                            Spec::Item(i) => Some(i),
+                            Spec::Wrap { inner, .. } => first_item(inner),
+                            _ => None,
+                        }
+                    }
+                    match s {
+                        Spec::Adj(xs) => {
+                            for i in xs.iter().filter_map(first_item) {
+                                if i.is_arg() {
+                                    out.push(i.names.clone());
+                                }
+                            }
+                            xs.iter().for_each(|x| adjacent_first_args(x, out));
+                        }
+                        Spec::Wrap { inner, .. } => adjacent_first_args(inner, out),
+                        Spec::Seq(xs) | Spec::Alt(xs) => {
+                            xs.iter().for_each(|x| adjacent_first_args(x, out))
+                        }
+                        Spec::Cmd(c) => adjacent_first_args(&c.opts.root, out),
+                        _ => {}
+                    }
+                }
+                let mut firsts = Vec::new();
+                adjacent_first_args(&ctx.path[0].root, &mut firsts);
+                let value_of_adjacent_first = typed.contains('=')
+                    && firsts.iter().any(|n| {
+                        n.longs.iter().any(|l| format!("--{}", l) == typed_name)
+                            || n.shorts.iter().any(|c| format!("-{}", c) == typed_name)
+                    });
                 let sig = if why.contains("hidden") {
                     "hidden-offered"
                 } else if why.contains("not entered") {
@@ -500,6 +533,8 @@ fn judge(
                 } else if why.contains("does not match") || why.contains("does not extend") {
                     if value_of_hidden {
                         "candidate-does-not-match-typed:attached-value-of-hidden-argument"
+                    } else if value_of_adjacent_first {
+                        "candidate-does-not-match-typed:attached-value-of-argument-in-adjacent-group"
                     } else {
                         "candidate-does-not-match-typed"
                     }
